@@ -105,7 +105,7 @@ package match
 //@   logical root map[string]interface{}
 //@   logical own map[string]interface{}
 //@   logical mark ref
-//@   requires mark <= allocmark() && okbs(bss, root, own, mark)
+//@   requires m != nil && mark <= allocmark() && okbs(bss, root, own, mark)
 //@   modifies[C03,C12] nothing
 //@   ensures err == nil ==> (cap(acc) == 0 || fresh(acc)) && forall j int :: 0 <= j && j < len(acc) ==> fresh(acc[j]) && okb(acc[j], root, own, mark)
 //@   loop 0 invariant (cap(acc) == 0 || fresh(acc)) && forall j int :: 0 <= j && j < len(acc) ==> fresh(acc[j]) && okb(acc[j], root, own, mark)
@@ -115,7 +115,7 @@ package match
 //@   logical root map[string]interface{}
 //@   logical own map[string]interface{}
 //@   logical mark ref
-//@   requires mark <= allocmark() && len(bsss) <= len(fxas) && okbss(bsss, root, own, mark)
+//@   requires m != nil && mark <= allocmark() && len(bsss) <= len(fxas) && okbss(bsss, root, own, mark)
 //@   modifies[C03,C12] nothing
 //@   ensures err == nil ==> len(nbsss) == len(nfxas) && okbss(nbsss, root, own, mark)
 //@   ensures err == nil ==> forall x int :: 0 <= x && x < len(nfxas) ==> nfxas[x] != nil && fresh(nfxas[x])
